@@ -15,6 +15,7 @@ import (
 	_ "hv/props/c11"
 	_ "hv/props/c12"
 	_ "hv/props/c13"
+	_ "hv/props/c14"
 	_ "hv/props/c15"
 	_ "hv/props/c16"
 	_ "hv/props/c17"
